@@ -11,20 +11,11 @@ from . import array_folds as af
 from .common import calls_in, is_name, params, single_return, root_name, returns_of
 from .units_rules import check_wrap_helpers
 
-EXPLANATION = (
-    "Static rules on core/base.py and core/array.py: (R1) both numpy protocols forward the function and ALL arguments to "
-    "the one wrapper and refuse only non-call ufunc methods; (R2) the catalogue of unit-transforming functions named by the "
-    "property (multiply, divide, sqrt, square, cbrt, power, reciprocal) is contained in the set whose unit is recomputed, "
-    "and unit-preserving functions / predicates are not in it; (R3) a numeric result may inherit self.unit only after the "
-    "other unit-carrying operands were converted to or checked against it (today: not done -> known finding K1); (R4) the "
-    "dtype predicate gives numeric results a unit and boolean results none, over a model of all numpy dtypes; (R5) with "
-    "out= the unit is written to the out object, which is returned, and numpy writes into its buffer; (R6) the helper "
-    "methods extract arrays/units from every argument and pass other operands through; (R7) sequence arguments "
-    "(concatenate) are unpacked element-wise.")
-NOT_DECIDED = ("numpy's values; functions whose correct unit is neither inherited nor in the property's catalogue "
-               "(var, prod, argsort, ...)")
-TRUSTED = ("CPython ast", "numpy/pint behave as documented", "S4 catalogue (from the property text)", "numpy dtype model")
+EXPLANATION = "Folds of core/base.py and core/array.py: (R1) __array_ufunc__/__array_function__ forward the function and ALL arguments to the one wrapper and refuse non-call ufunc methods; (R2) for every function of the property's unit-transforming catalogue the unit is derived by applying the function to the operand units, others inherit; (R3) np.add(a [m], b [cm]): a numeric result may inherit self.unit only after the other operands were reconciled (today: not done -> known finding K1); (R4) dtype gate over the 16-dtype model; (R5) out=: unit stored on the out object, which is returned; (R6) buffers/units extracted from every argument kind; sequence first arguments; (R7) Array.to exact (shared)."
+NOT_DECIDED = "numpy's values; functions whose correct unit is neither inherited nor in the property's catalogue (var, prod, argsort, ...)"
+TRUSTED = ('CPython ast', 'numpy/pint behave as documented', 'S4 catalogue (from the property text)', 'numpy dtype model', 'the interpreter sa/models.py (ModelEval) and its library models')
 
+TECHNIQUE = 'static analysis: abstract interpretation of the numpy dispatch over function-name/dtype/operand-kind cases'
 
 def r1_protocols(run, tree):
     run.rule("C10.R1", "numpy protocols forward everything to _wrap_numpy", "D7 fold of Base.__array_ufunc__/__array_function__", "", floor=2)
